@@ -12,6 +12,7 @@ import (
 	"net/http/httptest"
 	"os"
 	"path/filepath"
+	"reflect"
 	"runtime"
 	"sort"
 	"sync"
@@ -114,7 +115,9 @@ type Run struct {
 	clients  []*clientState
 	lastLock map[uint64]lockAttr // goroutine id -> kind of the last lock-acquiring point released for it
 	heldMu   sync.Mutex
-	held     map[uint64]*heldRec // goroutine id -> runner lock it holds (from release of a lock point until "auto.unlocked")
+	held     map[uintptr]map[uint64]*heldRec // lock -> goroutine id -> how it holds it (from "auto.locked*" until "auto.unlocked")
+	mxCache  map[*prunner.PipelineRunner]uintptr
+	gWorld   map[uint64]*World // goroutine id -> world it was last seen working for
 	deadlock string              // set once: description of a goroutine that blocks for ever while holding the runner lock
 	goidTag  map[uint64]int
 	hello    chan helloMsg
@@ -166,7 +169,7 @@ const (
 func NewRun(sc *Scenario, tape *Tape) *Run {
 	return &Run{sc: sc, tape: tape,
 		runnerOwner: map[*prunner.PipelineRunner]*World{}, storeOwner: map[*store.JsonDataStore]*World{},
-		goidTag: map[uint64]int{}, lastLock: map[uint64]lockAttr{}, held: map[uint64]*heldRec{}, hello: make(chan helloMsg, 64), done: make(chan OpResult, 64),
+		goidTag: map[uint64]int{}, lastLock: map[uint64]lockAttr{}, held: map[uintptr]map[uint64]*heldRec{}, mxCache: map[*prunner.PipelineRunner]uintptr{}, gWorld: map[uint64]*World{}, hello: make(chan helloMsg, 64), done: make(chan OpResult, 64),
 		stats: Stats{Faults: map[string]int{}, Probes: map[string]int{}, AbstractSeen: map[string]bool{}},
 	}
 }
@@ -226,13 +229,13 @@ func (run *Run) hook(point string, ctx []interface{}) {
 			return
 		}
 	}
-	name, owner, attr := nameOf(point, ctx)
+	name, owner, attr, lock := nameOf(point, ctx)
 	if point == "sched.loop" {
 		if s, ok := ctx[0].(jobRunner); ok && s.markBegun() {
 			s.ev("exec-begin", "", "")
 		}
 	}
-	run.core.park(point, name, owner, attr)
+	run.core.parkL(point, name, owner, attr, lock)
 	if point == "sched.loop" {
 		if s, ok := ctx[0].(jobRunner); ok {
 			g := ctx[1].(*scheduler.ExecutionGraph)
@@ -252,14 +255,14 @@ func (run *Run) skipHook(point string, ctx []interface{}) bool {
 		if point == "auto.lockedR" {
 			attr = lkR
 		}
-		var owner interface{}
-		if len(ctx) > 0 {
-			owner = ctx[0]
+		if len(ctx) > 1 {
+			run.noteLocked(attr, ptrOf(ctx[1]))
 		}
-		run.noteLocked(attr, owner)
 		return false
 	case "auto.unlocked":
-		run.noteUnlocked()
+		if len(ctx) > 1 {
+			run.noteUnlocked(ptrOf(ctx[1]))
+		}
 		return false
 	case "persist.stop":
 		c, _ := ctx[1].(context.Context)
@@ -376,6 +379,11 @@ func (run *Run) collect() {
 		for _, p := range append([]*parked(nil), run.core.parkedQ...) {
 			point, _, owner, gid, _, _ := p.rd()
 			w := run.worldOf(owner)
+			if w != nil {
+				run.gWorld[gid] = w
+			} else {
+				w = run.gWorld[gid] // a hook point that does not say whose it is (an inserted one on a lock of something else)
+			}
 			if run.core.tags[p] == "" {
 				if c, ok := run.goidTag[gid]; ok {
 					run.core.tags[p] = fmt.Sprintf("@c%d", c)
@@ -432,75 +440,112 @@ func (run *Run) writerInside() bool {
 	return false
 }
 
-// heldRec: the runner lock as held by one goroutine. Entries are made and
-// removed by the notifications the instrumenter puts after every `X.mx.Lock()`,
-// `X.mx.RLock()` and unlock of the root package, executed by the goroutine itself.
+// heldRec: one lock as held by one goroutine. Entries are made and removed by the
+// notifications the instrumenter puts after every `L.Lock()`, `L.RLock()` and
+// unlock of the root package, executed by the goroutine itself.
 type heldRec struct {
 	kind  lockAttr // lkR or lkW
 	depth int
-	owner interface{} // the runner
 	step  int
 }
 
 //go:norace
-func (run *Run) noteLocked(attr lockAttr, owner interface{}) {
+func (run *Run) noteLocked(attr lockAttr, lock uintptr) {
 	gid := goid()
-	if gid == run.core.driver {
+	if gid == run.core.driver || lock == 0 {
 		return
 	}
 	raceOff()
 	run.heldMu.Lock()
-	if h := run.held[gid]; h != nil && h.owner == owner {
+	hs := run.held[lock]
+	if hs == nil {
+		hs = map[uint64]*heldRec{}
+		run.held[lock] = hs
+	}
+	if h := hs[gid]; h != nil {
 		h.depth++
 	} else {
-		run.held[gid] = &heldRec{kind: attr, depth: 1, owner: owner, step: run.step}
+		hs[gid] = &heldRec{kind: attr, depth: 1, step: run.step}
 	}
 	run.heldMu.Unlock()
 	raceOn()
 }
 
 //go:norace
-func (run *Run) noteUnlocked() {
+func (run *Run) noteUnlocked(lock uintptr) {
 	gid := goid()
 	if gid == run.core.driver {
 		return
 	}
 	raceOff()
 	run.heldMu.Lock()
-	if h := run.held[gid]; h != nil {
+	if h := run.held[lock][gid]; h != nil {
 		h.depth--
 		if h.depth <= 0 {
-			delete(run.held, gid)
+			delete(run.held[lock], gid)
 		}
 	}
 	run.heldMu.Unlock()
 	raceOn()
 }
 
-// holder describes who stands in the way of a goroutine gid that wants the lock
-// of runner owner in mode attr (gid 0, attr lkR: the driver's own snapshot).
-// parked: the holder waits at a hook point and can be released; otherwise it sits
-// in a channel operation, a timer or a wait group - or has returned without
-// unlocking - and releasing the requester would block it on a sync.RWMutex,
-// which the bubble does not count as durably blocked: the simulator would hang.
+// mxOf: identity of the runner's own lock (the one the driver's reads take).
+func (run *Run) mxOf(r *prunner.PipelineRunner) uintptr {
+	if r == nil {
+		return 0
+	}
+	if id, ok := run.mxCache[r]; ok {
+		return id
+	}
+	var id uintptr
+	if f := reflect.ValueOf(r).Elem().FieldByName("mx"); f.IsValid() && f.CanAddr() {
+		id = f.Addr().Pointer()
+	}
+	run.mxCache[r] = id
+	return id
+}
+
+// lockOf: the lock the goroutine of record p is about to take (0 = none known).
+func (run *Run) lockOf(p *parked) uintptr {
+	_, _, owner, _, attr, _ := p.rd()
+	if attr != lkR && attr != lkW {
+		return 0
+	}
+	if id := p.lockID(); id != 0 {
+		return id
+	}
+	if w := run.worldOf(owner); w != nil {
+		return run.mxOf(w.r)
+	}
+	return 0
+}
+
+// holder describes who stands in the way of a goroutine gid that wants lock in
+// mode attr (gid 0, attr lkR, the runner lock: the driver's own snapshot).
+// rec != nil: the holder waits at a hook point and can be released; otherwise it
+// sits in a channel operation, a timer or a wait group - or has returned without
+// unlocking - and releasing the requester would block it on a sync mutex, which
+// the bubble does not count as durably blocked: the simulator would hang.
 //
 //go:norace
-func (run *Run) holder(gid uint64, attr lockAttr, owner interface{}) (rec *parked, found bool, desc string) {
+func (run *Run) holder(gid uint64, attr lockAttr, lock uintptr) (rec *parked, found bool, desc string) {
+	if lock == 0 {
+		return nil, false, ""
+	}
 	raceOff()
 	run.heldMu.Lock()
 	defer func() { run.heldMu.Unlock(); raceOn() }()
-	if len(run.held) == 0 {
+	hs := run.held[lock]
+	if len(hs) == 0 {
 		return nil, false, ""
 	}
 	var gids []uint64
-	for g, h := range run.held {
-		if h.owner == owner {
-			gids = append(gids, g)
-		}
+	for g := range hs {
+		gids = append(gids, g)
 	}
 	sort.Slice(gids, func(i, j int) bool { return gids[i] < gids[j] })
 	for _, g := range gids {
-		h := run.held[g]
+		h := hs[g]
 		if h.kind != lkW && attr != lkW {
 			continue
 		}
@@ -531,11 +576,11 @@ func (run *Run) lockBusy() bool {
 	if run.deadlock != "" {
 		return true
 	}
-	rec, found, desc := run.holder(0, lkR, run.cur.r)
+	rec, found, desc := run.holder(0, lkR, run.mxOf(run.cur.r))
 	for i := 0; found && rec == nil && i < 6; i++ {
 		run.core.advanceExactly(10 * time.Second)
 		run.collect()
-		rec, found, desc = run.holder(0, lkR, run.cur.r)
+		rec, found, desc = run.holder(0, lkR, run.mxOf(run.cur.r))
 	}
 	if found && rec == nil {
 		run.declareDeadlock("every reader and writer of the runner is blocked by " + desc + " (60 s of simulated time later it still holds it)")
@@ -550,7 +595,7 @@ func (run *Run) lockHolderParked() *parked {
 	if run.cur == nil || run.cur.isDead() || run.sc.Cfg.NoOracle || run.deadlock != "" {
 		return nil
 	}
-	rec, _, _ := run.holder(0, lkR, run.cur.r)
+	rec, _, _ := run.holder(0, lkR, run.mxOf(run.cur.r))
 	return rec
 }
 
@@ -565,11 +610,33 @@ func (run *Run) stuckOnLock() string {
 		if w := run.worldOf(owner); w == nil || w.isDead() {
 			continue
 		}
-		if rec, found, desc := run.holder(gid, attr, owner); found && rec == nil {
+		if rec, found, desc := run.holder(gid, attr, run.lockOf(p)); found && rec == nil {
 			return name + " is blocked by " + desc
 		}
 	}
 	return ""
+}
+
+// lockCycle: every parked goroutine waits for a lock whose holder is parked too
+// and waits for a lock itself (lock-order inversion).
+func (run *Run) lockCycle() string {
+	var parts []string
+	for _, p := range run.core.parkedQ {
+		_, name, owner, gid, attr, _ := p.rd()
+		if w := run.worldOf(owner); w != nil && w.isDead() {
+			continue
+		}
+		if run.grantable(p) {
+			return ""
+		}
+		if rec, found, _ := run.holder(gid, attr, run.lockOf(p)); found && rec != nil {
+			parts = append(parts, name+" waits for a lock held by "+run.core.final(rec))
+		}
+	}
+	if len(parts) == 0 {
+		return ""
+	}
+	return "lock-order inversion: " + strings.Join(parts, "; ")
 }
 
 // deadlockProps: the properties whose statements a runner that never answers
@@ -622,8 +689,8 @@ func whereIs(gid uint64) string {
 
 // lockFree: can the goroutine of record p take the runner lock without blocking?
 func (run *Run) lockFree(p *parked) bool {
-	_, _, owner, gid, attr, _ := p.rd()
-	_, found, _ := run.holder(gid, attr, owner)
+	_, _, _, gid, attr, _ := p.rd()
+	_, found, _ := run.holder(gid, attr, run.lockOf(p))
 	return !found
 }
 
@@ -631,14 +698,22 @@ func (run *Run) lockFree(p *parked) bool {
 // write lock is not released while anybody is parked inside; one that is about
 // to take the read lock not while a write-lock holder is parked inside.
 func (run *Run) grantable(p *parked) bool {
-	_, _, _, _, attr, _ := p.rd()
-	switch attr {
-	case lkW:
-		return run.readersInside() == 0 && run.lockFree(p)
-	case lkR:
-		return !run.writerInside() && run.lockFree(p)
+	_, _, owner, _, attr, _ := p.rd()
+	if attr != lkW && attr != lkR {
+		return true
 	}
-	return true
+	if !run.lockFree(p) {
+		return false
+	}
+	if id := p.lockID(); id != 0 {
+		if w := run.worldOf(owner); w == nil || id != run.mxOf(w.r) {
+			return true // some other lock: the records parked inside harness callbacks do not hold it
+		}
+	}
+	if attr == lkW {
+		return run.readersInside() == 0
+	}
+	return !run.writerInside()
 }
 
 // ---------------------------------------------------------------------------
@@ -1373,11 +1448,19 @@ func (run *Run) drain() {
 				run.stats.Drained = true
 				break
 			}
-		} else if desc := run.stuckOnLock(); desc != "" && dt >= maxDelay {
+		} else if len(run.core.parkedQ) > 0 && dt >= maxDelay {
+			// goroutines wait at lock-acquiring points, none of them can be let go without blocking on a lock, and two
+			// longest delays of simulated time have changed nothing
 			stuck++
 			if stuck >= 2 {
-				run.declareDeadlock(desc)
-				break
+				desc := run.stuckOnLock()
+				if desc == "" {
+					desc = run.lockCycle()
+				}
+				if desc != "" {
+					run.declareDeadlock(desc)
+					break
+				}
 			}
 		}
 		run.recordStep(StepInfo{Kind: "advance", Name: "advance", Dt: dt, Forced: true})
